@@ -787,6 +787,15 @@ def csem_shrink(ctx, cexe, cmd, sig):
 
 
 def run_csem(ctx, cexe, lines, label, diff=True, shrink=True):
+    ok = True
+    for k in range(0, len(lines), 25000):            # one harness process per batch
+        ok = run_csem_batch(ctx, cexe, lines[k:k + 25000], label, diff, shrink) and ok
+        if ctx.violations or "csem" in ctx.diff_ops:
+            break
+    return ok
+
+
+def run_csem_batch(ctx, cexe, lines, label, diff=True, shrink=True):
     text = "\n".join(lines) + "\n"
     rc, iout, ierr = ctx.run(cexe, text=text, timeout=ctx.scale(120, 900))
     il = iout.splitlines()
